@@ -305,7 +305,7 @@ fn host_summary(h: &HostCfg) -> Value {
         "entropy_seed": h.entropy_seed, "entropy_skip": h.entropy_skip,
         "env": h.env.iter().map(|(k, v)| format!("{}={}", k, if v.len() > 24 { format!("<{} bytes>", v.len()) } else { v.clone() })).collect::<Vec<_>>(),
         "clock_epoch_ns": h.clock_epoch_ns, "clock_step_ns": h.clock_step_ns, "pid": h.pid, "cwd": h.cwd, "argv": h.argv,
-        "hostname": h.hostname, "uid": h.uid, "ncpu": h.ncpu, "warm_disk": h.warm_disk,
+        "hostname": h.hostname, "uid": h.uid, "ncpu": h.ncpu, "exe": h.exe, "warm_disk": h.warm_disk,
         "fs_view": h.fs_map.iter().map(|(k, key, c)| format!("{} {} <{} bytes>", k, key, c.len())).collect::<Vec<_>>(),
         "history": if ev.len() > 60 { let mut e = ev[..60].to_vec(); e.push(format!("... {} more", ev.len() - 60)); e } else { ev },
     })
@@ -429,7 +429,7 @@ fn run_planned_world(env: &Env, idx: usize, ws: u64, w: World, want_sample: bool
         for n in fault_names(fired) {
             *st.fault_fired_hosts.entry(n.to_string()).or_default() += 1;
         }
-        st.distinct_fault_vectors.insert(fnv64(format!("{:?}|{}|{}|{}|{}|{:?}|{:?}|{:?}|{:?}|{:?}|{:?}|{}", h.env, h.entropy_seed, h.clock_epoch_ns, h.clock_step_ns, h.pid, h.cwd, h.argv, h.hostname, h.uid, h.ncpu, h.fs_map, h.warm_disk).as_bytes()));
+        st.distinct_fault_vectors.insert(fnv64(format!("{:?}|{}|{}|{}|{}|{:?}|{:?}|{:?}|{:?}|{:?}|{:?}|{:?}", h.env, h.entropy_seed, h.clock_epoch_ns, h.clock_step_ns, h.pid, h.cwd, h.argv, h.hostname, h.uid, h.ncpu, h.fs_map, (h.warm_disk, &h.exe)).as_bytes()));
 
         let host_hist_hash = events_hash(&h.events);
         // position of each observation in the host's history, counting expansions only
@@ -594,7 +594,7 @@ fn hostcfg_to_json(h: &HostCfg) -> Value {
         "env": h.env.iter().map(|(k, v)| json!([k, v])).collect::<Vec<_>>(),
         "clock_epoch_ns": h.clock_epoch_ns, "clock_step_ns": h.clock_step_ns,
         "pid": h.pid, "cwd": h.cwd, "argv": h.argv, "events": ev,
-        "hostname": h.hostname, "uid": h.uid, "ncpu": h.ncpu,
+        "hostname": h.hostname, "uid": h.uid, "ncpu": h.ncpu, "exe": h.exe,
         "fs_map": h.fs_map.iter().map(|(k, key, c)| json!([k.to_string(), key, c])).collect::<Vec<_>>(),
         "warm_disk": h.warm_disk,
     })
@@ -617,6 +617,7 @@ fn hostcfg_from_json(v: &Value) -> Option<HostCfg> {
     h.hostname = v["hostname"].as_str().map(|s| s.to_string());
     h.uid = v["uid"].as_u64().map(|x| x as u32);
     h.ncpu = v["ncpu"].as_u64().map(|x| x as u32);
+    h.exe = v["exe"].as_str().map(|s| s.to_string());
     h.warm_disk = v["warm_disk"].as_bool().unwrap_or(false);
     if let Some(a) = v["fs_map"].as_array() {
         for e in a {
